@@ -226,7 +226,10 @@ func (b *Built) defineOpt(g *getoptions.GetOpt, path string, o *OptDef) {
 		fns = append(fns, g.SuggestedValuesFn(valueFn(o.SuggestFn)))
 	}
 	if o.Required {
-		if o.HasReqMsg {
+		if o.HasReqMsg && len(o.ReqMsg)%2 == 1 {
+			// the message is the first argument, whatever else is passed
+			fns = append(fns, g.Required(o.ReqMsg, "a second argument changes nothing"))
+		} else if o.HasReqMsg {
 			fns = append(fns, g.Required(o.ReqMsg))
 		} else {
 			fns = append(fns, g.Required())
